@@ -27,7 +27,7 @@ fn multi_case(depths: &[u64], second_thread_depths: &[u64]) -> History {
         recs.push(mk(101, *d, t, k as u64 % 2));
         t += 1000;
     }
-    History { reuse: false, fold: false, ref_time: t0, recs, files: Vec::new() }
+    History { reuse: false, fold: false, ref_time: t0, recs, ..Default::default() }
 }
 
 fn deep_case(depth: u64, fold: bool, extra_shallow: bool, mapped: bool, recursion: u64) -> History {
@@ -49,7 +49,112 @@ fn deep_case(depth: u64, fold: bool, extra_shallow: bool, mapped: bool, recursio
     if extra_shallow {
         recs.push(Rec::Sample { pid: 100, tid: 100, t: t0 + 1000, kernel: false, period: 1_000_000, ip: 0x10008, chain: vec![CTX_USER, 0x10008, 0x10018, 0x10028] });
     }
-    History { reuse: false, fold, ref_time: t0, recs, files: Vec::new() }
+    History { reuse: false, fold, ref_time: t0, recs, ..Default::default() }
+}
+
+/// One sample whose recorded frames (root first in `seq`) lie in the perf-map functions `table` of pid 100
+/// (`Some(k)`: function k, 16 bytes each from 0x5000_0000) or at unmapped addresses (`None`); every frame gets
+/// an offset that identifies its position, so that every kept frame is identifiable.
+fn jit_seq_case(table: &[&str], seq: &[Option<usize>], ncpu: u32, shallow_too: bool) -> History {
+    const A: u64 = 0x5000_0000;
+    let t0 = 5_000_000u64;
+    let mut recs = vec![Rec::Comm { pid: 100, tid: 100, name: "jit".to_string(), exec: false, t: t0 - 10 }];
+    let mut perf_maps = Vec::new();
+    for (k, n) in table.iter().enumerate() {
+        perf_maps.push((100u32, PerfMapLine::Fn { addr: A + 16 * k as u64, len: 16, name: n.to_string() }));
+    }
+    // callee first; all entries are return addresses (looked up at - 1)
+    let mut chain = vec![CTX_USER];
+    for (i, f) in seq.iter().enumerate().rev() {
+        chain.push(match f {
+            Some(k) => A + 16 * *k as u64 + 1 + (i as u64 % 15),
+            None => 0x10000 + 16 * i as u64 + 8,
+        });
+    }
+    recs.push(Rec::Sample { pid: 100, tid: 100, t: t0, kernel: false, period: 1_000_000, ip: 0x10008, chain });
+    if shallow_too {
+        recs.push(Rec::Sample { pid: 100, tid: 100, t: t0 + 1000, kernel: false, period: 1_000_000, ip: A + 3, chain: vec![CTX_USER, A + 3, A + 20, 0x10028] });
+    }
+    History { reuse: false, fold: false, ref_time: t0, recs, perf_maps, ncpu, ..Default::default() }
+}
+
+/// `depth` recorded frames cycling through the functions `names`
+fn jit_case(depth: u64, names: &[&str]) -> History {
+    let seq: Vec<Option<usize>> = (0..depth as usize).map(|i| Some(i % names.len())).collect();
+    jit_seq_case(names, &seq, 0, false)
+}
+
+const HANDOVER: [&str; 6] = ["Interpreter: x (a.js:1:1)", "plain", "BaselineInterpreter", "BaselineInterpreter: s (a.js:2:2)", "Ion: forEach[Call (StrictMode)]", "Builtin:b"];
+
+fn jit_fixed_cases(tier: Tier) -> Vec<Case> {
+    let mut v = Vec::new();
+    let mut push = |name: String, h: History| v.push(Case { name, ops: h.to_ops() });
+    // every frame in a JS function: the emitted depth is twice the recorded one
+    let all_js: &[u64] = if tier == Tier::Thorough {
+        &[100, 200, 249, 250, 251, 300, 400, 498, 499, 500, 501, 502, 599, 600, 601, 698, 699, 700, 701, 899, 900, 1000, 1300, 2000, 4000]
+    } else {
+        &[249, 250, 251, 300, 499, 500, 501, 600, 699, 700, 1300]
+    };
+    for d in all_js {
+        push(format!("js{d}"), jit_case(*d, &["py::f"]));
+    }
+    // JS and non-JS functions alternating: 1.5 emitted frames per recorded frame
+    for d in [333u64, 334, 500, 666, 667, 700] {
+        push(format!("jsalt{d}"), jit_case(d, &["py::f", "Builtin:x"]));
+    }
+    // k unmapped root frames, then JS frames: the label frame / the native frame of the first JS frame is the
+    // 200th kept frame (and around it)
+    for k in [197usize, 198, 199, 200, 201] {
+        for d in [600usize, 700] {
+            let seq: Vec<Option<usize>> = (0..d).map(|i| if i < k { None } else { Some(0) }).collect();
+            push(format!("jsafter{k}-{d}"), jit_seq_case(&["py::f"], &seq, 0, k % 2 == 0));
+        }
+    }
+    // JS frames only inside the elided middle / only in the leaf part / only in the root part
+    for (name, lo, hi) in [("mid", 250usize, 300usize), ("leaf", 560, 600), ("root", 10, 60), ("across-start", 190, 210), ("across-end", 390, 410)] {
+        let seq: Vec<Option<usize>> = (0..600).map(|i| if i >= lo && i < hi { Some(0) } else { None }).collect();
+        push(format!("jsonly-{name}"), jit_seq_case(&["JS:~g app.js:1:1"], &seq, 0, false));
+    }
+    // the baseline-interpreter name hand-over, deep
+    for d in [300usize, 520, 700] {
+        let pat = [0usize, 1, 1, 2, 2, 3, 2, 4, 2, 5, 0, 5, 2, 0, 3, 2];
+        let seq: Vec<Option<usize>> = (0..d).map(|i| Some(pat[i % pat.len()])).collect();
+        push(format!("jshandover{d}"), jit_seq_case(&HANDOVER, &seq, 0, false));
+    }
+    // per-CPU label frame on top of JS label frames
+    for d in [250usize, 499, 500, 600] {
+        let seq: Vec<Option<usize>> = (0..d).map(|i| Some(i % 2)).collect();
+        push(format!("jspercpu{d}"), jit_seq_case(&["py::f", "plain"], &seq, 2, true));
+    }
+    v
+}
+
+fn jit_random_case(rng: &mut Rng) -> History {
+    let n_fn = rng.range(1, 6) as usize;
+    let table: Vec<&str> = (0..n_fn).map(|_| if rng.chance(1, 3) { "py::f" } else { *rng.pick(&JIT_NAMES) }).collect();
+    let depth = match rng.below(5) {
+        0 => rng.range(200, 520),
+        1 => 500 + 200 * rng.below(4) + rng.below(7) - 3,
+        2 => rng.range(480, 1400),
+        3 => rng.range(240, 260),
+        _ => rng.range(1, 300),
+    } as usize;
+    // runs of frames in the same function (recursion) or unmapped
+    let mut seq: Vec<Option<usize>> = Vec::with_capacity(depth);
+    while seq.len() < depth {
+        let what = if rng.chance(1, 4) { None } else { Some(rng.below(n_fn as u64) as usize) };
+        let run = match rng.below(4) {
+            0 => 1,
+            1 => rng.range(1, 5),
+            2 => rng.range(5, 60),
+            _ => rng.range(60, 400),
+        } as usize;
+        for _ in 0..run.min(depth - seq.len()) {
+            seq.push(what);
+        }
+    }
+    let ncpu = if rng.chance(1, 4) { rng.range(1, 4) as u32 } else { 0 };
+    jit_seq_case(&table, &seq, ncpu, rng.chance(1, 3))
 }
 
 impl Prop for C14 {
@@ -58,7 +163,7 @@ impl Prop for C14 {
     }
     fn case_count(&self, tier: Tier) -> u64 {
         match tier {
-            Tier::Quick => 60,
+            Tier::Quick => 100,
             Tier::Thorough => 1500,
         }
     }
@@ -97,12 +202,30 @@ impl Prop for C14 {
             (&[500, 500, 700, 700], &[700, 500]),
             (&[3000, 501, 8000], &[300, 2000]),
         ];
+        v.extend(jit_fixed_cases(tier));
+        // `--per-cpu-threads`: the copies on the CPU tracks carry the thread label as extra first frame
+        let percpu: &[u64] = if tier == Tier::Thorough { &[0, 1, 3, 200, 497, 498, 499, 500, 501, 502, 698, 699, 700, 701, 899, 900, 901, 1300, 8000] } else { &[3, 498, 499, 500, 501, 699, 700] };
+        for d in percpu {
+            let mut h = deep_case(*d, false, true, d % 2 == 0, 0);
+            h.ncpu = 3;
+            v.push(Case { name: format!("percpu{d}"), ops: h.to_ops() });
+        }
+        {
+            // several threads (renamed in between) on several CPUs
+            let mut h = multi_case(&[520, 30, 750], &[499, 500]);
+            h.recs.insert(2, Rec::Comm { pid: 100, tid: 100, name: "renamed".to_string(), exec: false, t: 5_000_500 });
+            h.ncpu = 2;
+            v.push(Case { name: "percpu-multi".to_string(), ops: h.to_ops() });
+        }
         for (k, (a, b)) in multis.iter().enumerate() {
             v.push(Case { name: format!("multi{k}"), ops: multi_case(a, b).to_ops() });
         }
         v
     }
     fn generate(&self, rng: &mut Rng, _tier: Tier, _index: u64) -> Vec<String> {
+        if rng.chance(2, 5) {
+            return jit_random_case(rng).to_ops();
+        }
         if rng.chance(1, 3) {
             let pick = |rng: &mut Rng| match rng.below(3) {
                 0 => rng.range(1, 499),
@@ -121,7 +244,11 @@ impl Prop for C14 {
         };
         let fold = rng.chance(1, 3);
         let recursion = if rng.chance(1, 3) { rng.range(1, 40) } else { 0 };
-        deep_case(depth.min(8100 - recursion), fold, rng.chance(1, 2), rng.chance(1, 2), recursion).to_ops()
+        let mut h = deep_case(depth.min(8100 - recursion), fold, rng.chance(1, 2), rng.chance(1, 2), recursion);
+        if rng.chance(1, 4) {
+            h.ncpu = rng.range(1, 4) as u32;
+        }
+        h.to_ops()
     }
     fn execute(&self, ops: &[String], stats: &mut Stats) -> Vec<String> {
         let Some(h) = History::from_ops(ops) else {
@@ -133,6 +260,15 @@ impl Prop for C14 {
         let out = import_and_render(&h, Proj::C02, &dir, &tag, stats);
         for l in &out {
             if l.starts_with("s ") {
+                if l.contains(" j:") {
+                    stats.bump("stacks_with_js_labels");
+                }
+                if l.contains(" x:") {
+                    stats.bump("stacks_per_cpu_copies");
+                }
+                if l.split_whitespace().count() > 503 {
+                    stats.bump("stacks_deeper_than_501");
+                }
                 if l.contains(" e:") {
                     stats.bump("stacks_elided");
                 } else {
